@@ -58,18 +58,8 @@ pub fn get() -> FunctionDefinitions {
                         Some(new_vec.into())
                     }
                     Some(JsonValue::String(str)) => {
-                        if start >= str.len() || length == 0 {
-                            Some(String::new().into())
-                        } else {
-                            let last_index = start + length;
-                            let last_index = if last_index >= str.len() {
-                                str.len()
-                            } else {
-                                last_index
-                            };
-                            let str = str[start..last_index].to_string();
-                            Some(str.into())
-                        }
+                        let str: String = str.chars().skip(start).take(length).collect();
+                        Some(str.into())
                     }
                     _ => None,
                 }
